@@ -25,3 +25,11 @@ package smpeer
 //@   ensures [C11] identity_and_shared_applications: meta != nil && fresh(meta) && meta.OriginHost == cer.OriginHost && meta.OriginRealm == cer.OriginRealm &&
 //@          sameslice(meta.Applications, cer.appID)
 //@ end
+//@
+//@ func FromCEA(cea) (meta)
+//@   property C12
+//@   requires cea != nil
+//@   modifies
+//@   ensures [C12] identity_and_shared_applications: meta != nil && fresh(meta) && meta.OriginHost == cea.OriginHost && meta.OriginRealm == cea.OriginRealm &&
+//@          sameslice(meta.Applications, cea.appID)
+//@ end
